@@ -84,6 +84,7 @@ CONSTANTS
   FirstRootOnly,    \* deviation: of several roots at one stop only the first in list order is applied
   CallerMayDrop,    \* "calls": the caller may stop passing the event queue from some call on
   StaleThrust,      \* deviation (seeded/C03/change4): finite_thrust is only reset when events are passed
+  Layouts,          \* memory layouts of the state argument the caller may use
   EmitTag           \* "" = do not print behaviours
 
 \* named constant sets for the cfg files (cfg files cannot hold tuples / negatives)
@@ -92,6 +93,8 @@ LawsThorough == {<<1, 0, 1>>, <<3, 1, 2>>, <<40, 0, -1>>, <<5, 2, 3>>}
 LawsOne      == {<<2, 1, 1>>}
 KindsBurn    == {"eci", "ntw", "spiral"}
 KindsOne     == {"eci"}
+LayoutsC     == {"C"}
+LayoutsAll   == {"C", "F", "strided", "readonly"}
 
 VARIABLES
   pc,      \* control state
@@ -107,12 +110,13 @@ VARIABLES
   rem, outs,  \* remaining t_eval times / collected outputs of the running call
   hist,    \* completed calls (for the harness)
   on,      \* ticks tau such that the thrust was on during [tau, tau+1)
+  layout,  \* memory layout of the state argument: "C" | "F" (transposed (K,6)) | "strided" (view) | "readonly"
   dropAt,  \* time from which the caller passes no events any more (NeverDrop = it always does)
   imp      \* companion impulse [at, dv, first, st, qfirst, pend]: at = 0 none; first = listed before the burn in the
            \* configuration; st = "config" | "queued" | "applied" | "lost"; qfirst = before the burn in the agent's queue;
            \* pend = events whose root is at the current stop and that are still to be applied
 
-vars == <<pc, law, burn, dt, nsteps, hor, X0, now, X, queue, thrust, call, it, fresh, rem, outs, hist, on, dropAt, imp>>
+vars == <<pc, law, burn, dt, nsteps, hor, X0, now, X, queue, thrust, call, it, fresh, rem, outs, hist, on, dropAt, imp, layout>>
 
 NoBurn  == [ts |-> 0, te |-> 0, kind |-> "none"]
 NoCall  == [kind |-> "none", times |-> <<>>, X0 |-> <<>>, q |-> 0]
@@ -191,12 +195,15 @@ Flow(t0, tf, col, q) == Run(t0, tf, col, PruneQ(q, t0))
 Init == /\ pc = "poseLaw" /\ law = <<0, 0, 0>> /\ burn = NoBurn
         /\ dt = 0 /\ nsteps = 0 /\ hor = 0 /\ X0 = <<>> /\ now = 0 /\ X = <<>>
         /\ queue = 0 /\ thrust = 0 /\ call = NoCall /\ it = 0 /\ fresh = FALSE
-        /\ rem = <<>> /\ outs = <<>> /\ hist = <<>> /\ on = {} /\ dropAt = NeverDrop /\ imp = NoImp
+        /\ rem = <<>> /\ outs = <<>> /\ hist = <<>> /\ on = {} /\ dropAt = NeverDrop /\ imp = NoImp /\ layout = "C"
 
 PoseLaw ==
   /\ pc = "poseLaw"
   /\ \E l \in Laws, K \in Ks :
        /\ law' = l /\ X0' = Batch(K, l[1]) /\ X' = Batch(K, l[1])
+  \* the memory layout in which the caller hands over the (6, K) batch is part of the posed call; it appears in no
+  \* formula below: the same values in another layout must give the same results
+  /\ \E ly \in Layouts : layout' = ly
   /\ pc' = "poseGrid"
   /\ UNCHANGED <<burn, dt, nsteps, hor, now, queue, thrust, call, it, fresh, rem, outs, hist, on>>
   /\ UNCHANGED dropAt
@@ -213,6 +220,7 @@ PoseGrid ==
   /\ pc' = "poseBurn"
   /\ UNCHANGED <<law, burn, X0, now, X, queue, thrust, call, it, fresh, rem, outs, hist, on>>
   /\ UNCHANGED dropAt
+  /\ UNCHANGED layout
   /\ UNCHANGED imp
 
 BurnIntervals ==
@@ -229,6 +237,7 @@ PoseBurn ==
   /\ pc' = IF Mode = "calls" THEN "append" ELSE "poseImp"
   /\ UNCHANGED <<law, dt, nsteps, hor, X0, now, X, queue, thrust, call, it, fresh, rem, outs, hist, on>>
   /\ UNCHANGED dropAt
+  /\ UNCHANGED layout
   /\ UNCHANGED imp
 
 \* "steps" mode: a companion impulse of the same agent, strictly inside a step (an impulse ON a step boundary is
@@ -244,7 +253,7 @@ PoseImp ==
         /\ \E t \in ImpTimes, d \in ImpDvs, f \in BOOLEAN :
               imp' = [at |-> t, dv |-> d, first |-> f, st |-> "config", qfirst |-> FALSE, pend |-> {}]
   /\ pc' = "idle"
-  /\ UNCHANGED <<law, burn, dt, nsteps, hor, X0, now, X, queue, thrust, call, it, fresh, rem, outs, hist, on, dropAt>>
+  /\ UNCHANGED <<law, burn, dt, nsteps, hor, X0, now, X, queue, thrust, call, it, fresh, rem, outs, hist, on, dropAt, layout>>
 
 (***************************************************************************)
 (* Agent side: queue                                                       *)
@@ -256,6 +265,7 @@ AppendEvent ==
   /\ pc' = "idle"
   /\ UNCHANGED <<law, burn, dt, nsteps, hor, X0, now, X, thrust, call, it, fresh, rem, outs, hist, on>>
   /\ UNCHANGED dropAt
+  /\ UNCHANGED layout
   /\ UNCHANGED imp
 
 \* "steps" mode: Scenario.stepForward handles the relevant events of (now, now + dt]:
@@ -272,6 +282,7 @@ Deliver ==
   /\ pc' = "delivered"
   /\ UNCHANGED <<law, burn, dt, nsteps, hor, X0, now, X, thrust, call, it, fresh, rem, outs, hist, on>>
   /\ UNCHANGED dropAt
+  /\ UNCHANGED layout
 
 \* "calls" mode: from now on the caller passes scheduled_events = None / [] (a filter that propagates
 \* without the agent's queue, a user calling the dynamics object directly).  The dynamics object is
@@ -280,7 +291,7 @@ DropEvents ==
   /\ pc = "idle" /\ Mode = "calls" /\ CallerMayDrop
   /\ queue > 0 /\ Len(hist) >= 1 /\ Len(hist) < MaxCalls /\ now < hor
   /\ queue' = 0 /\ dropAt' = now
-  /\ UNCHANGED <<pc, law, burn, dt, nsteps, hor, X0, now, X, thrust, call, it, fresh, rem, outs, hist, on, imp>>
+  /\ UNCHANGED <<pc, law, burn, dt, nsteps, hor, X0, now, X, thrust, call, it, fresh, rem, outs, hist, on, imp, layout>>
 
 \* PropagateRegistration.generateSubmission -> Agent.prunePropagateEvents
 Prune ==
@@ -290,6 +301,7 @@ Prune ==
   /\ pc' = "pruned"
   /\ UNCHANGED <<law, burn, dt, nsteps, hor, X0, now, X, thrust, call, it, fresh, rem, outs, hist, on>>
   /\ UNCHANGED dropAt
+  /\ UNCHANGED layout
   /\ UNCHANGED imp
 
 (***************************************************************************)
@@ -311,6 +323,7 @@ Begin(kind, times) ==
   /\ pc' = "integ"
   /\ UNCHANGED <<law, burn, dt, nsteps, hor, X0, now, X, queue, hist, on>>
   /\ UNCHANGED dropAt
+  /\ UNCHANGED layout
   /\ UNCHANGED imp
 
 \* Propagate(t0, t1)
@@ -347,6 +360,7 @@ Integrate ==
         /\ pc' = IF here # {} THEN "apply" ELSE "finish"
   /\ UNCHANGED <<law, burn, dt, nsteps, hor, X0, now, queue, thrust, call, fresh, hist>>
   /\ UNCHANGED dropAt
+  /\ UNCHANGED layout
 
 \* _applyEvents.  Several events can have their root at the same stop (an impulse at the very time the burn starts
 \* or ends).  As designed EVERY one of them is applied before the integration restarts; they are taken in the order
@@ -370,6 +384,7 @@ StartThrust ==
   /\ imp' = ImpAfter("start") /\ pc' = PcAfter("start")
   /\ UNCHANGED <<law, burn, dt, nsteps, hor, X0, now, X, queue, call, it, rem, outs, hist, on>>
   /\ UNCHANGED dropAt
+  /\ UNCHANGED layout
 
 \* end root: getStateChangeCallback returns None
 EndThrust ==
@@ -378,6 +393,7 @@ EndThrust ==
   /\ imp' = ImpAfter("end") /\ pc' = PcAfter("end")
   /\ UNCHANGED <<law, burn, dt, nsteps, hor, X0, now, X, queue, call, it, rem, outs, hist, on>>
   /\ UNCHANGED dropAt
+  /\ UNCHANGED layout
 
 \* discrete event: the state jumps by the impulse's delta-v, the thrust is not touched
 ApplyImpulse ==
@@ -387,6 +403,7 @@ ApplyImpulse ==
   /\ imp' = ImpAfter("imp") /\ pc' = PcAfter("imp")
   /\ UNCHANGED <<law, burn, dt, nsteps, hor, X0, now, queue, thrust, call, it, rem, outs, hist, on>>
   /\ UNCHANGED dropAt
+  /\ UNCHANGED layout
 
 \* return value; PropagateRegistration.processResults: time and state of the agent.
 \* propagateBulk drops the column of the initial time (final_states[..., 1:]).
@@ -394,11 +411,12 @@ Result == IF call.kind = "single" THEN <<X>> ELSE Tail(outs)
 Finish ==
   /\ pc = "finish"
   /\ now' = Tf
-  /\ hist' = Append(hist, [kind |-> call.kind, times |-> call.times, outs |-> Result, q |-> call.q])
+  /\ hist' = Append(hist, [kind |-> call.kind, times |-> call.times, outs |-> Result, q |-> call.q, layout |-> layout])
   /\ pc' = IF Tf = hor THEN "done" ELSE "idle"
   /\ call' = [call EXCEPT !.kind = "none"]
   /\ UNCHANGED <<law, burn, dt, nsteps, hor, X0, X, queue, thrust, it, fresh, rem, outs, on>>
   /\ UNCHANGED dropAt
+  /\ UNCHANGED layout
   /\ UNCHANGED imp
 
 Next == PoseLaw \/ PoseGrid \/ PoseBurn \/ PoseImp \/ ApplyImpulse \/ AppendEvent \/ Deliver \/ DropEvents \/ Prune \/ PrepEvents
@@ -446,6 +464,9 @@ QueueClean ==
   pc \in {"pruned", "integ", "apply", "finish"} =>
      queue <= 1 /\ (queue = 1 => HasBurn /\ now < burn.te)
 \* every scheduled impulse takes effect exactly once (it is never skipped at a stop it shares with another event)
+\* C03: what a completed call returned stays what it was: no later call (on the same dynamics object, with the same
+\* shapes, ...) may change it - the harness keeps every returned array and re-reads all of them after the last call
+OutputsImmutable == [][\A i \in DOMAIN hist : i \in DOMAIN hist' /\ hist'[i] = hist[i]]_vars
 ImpulseNeverLost == imp.st # "lost" /\ (pc = "done" /\ HasImp => imp.st = "applied")
 
 (***************************************************************************)
@@ -455,6 +476,6 @@ Emit ==
   (pc = "done" /\ EmitTag # "") =>
      PrintT(EmitTag \o " " \o ToJson(
        [mode |-> Mode, law |-> law, K |-> Len(X0), dt |-> dt, nsteps |-> nsteps, hor |-> hor,
-        burn |-> burn, X0 |-> X0, hist |-> hist, on |-> on, dropAt |-> dropAt,
+        burn |-> burn, X0 |-> X0, hist |-> hist, on |-> on, dropAt |-> dropAt, layout |-> layout,
         imp |-> [at |-> imp.at, dv |-> imp.dv, first |-> imp.first, qfirst |-> imp.qfirst]]))
 =============================================================================
